@@ -64,7 +64,8 @@ def check_C18(tier):
     chk = Check("C18", tier)
     chk.rule = ("Join.tla: one / two producers, lengths 0..BufSize+2, BufSize 1..2: order, whole, once, the task eventually runs; real: the same lengths x separators "
                 "{space, comma, colon} x modifiers {none, %.txt, basename} x producer timing; JoinTrace.tla checks drained = per-upstream prefix of sent, task members = "
-                "drained = what the command received = audit Upstream keys, exactly one execution; non-trivial = distinct (lengths, separator, modifier) with >= 2 members")
+                "drained = what the command received = audit Upstream keys, exactly one execution; the same workflows as Flow.tla instances (C18_Whole, liveness; weakened SubNoDrain "
+                "must be rejected) and FlowTrace.tla as acceptor of every recorded join run; non-trivial = distinct (lengths, separator, modifier) with >= 2 members")
     thorough = tier == "thorough"
     rng = random.Random(seed() * 47 + 18)
     build("wfdriver")
@@ -75,6 +76,20 @@ def check_C18(tier):
             if r.error: chk.undecided.append("Join.tla: " + r.error[-200:]); continue
             chk.add_tlc(r)
             if not r.ok: chk.undecided.append("Join.tla (buf=%d, lens=%s) violates %s" % (buf, (l1, l2), r.violated or "deadlock"))
+    # the same workflows as instances of Flow.tla (sub-stream emitter, carrier item, joined in-port drained before the task is built)
+    flowcases = [(0, -1, 1, False), (1, -1, 1, False), (2, -1, 1, False), (2, -1, 2, False), (1, -1, 1, True)] + ([(3, -1, 2, False), (3, -1, 1, False), (1, 1, 1, False)] if thorough else [])
+    def flowmodel(fcase):
+        n1, n2, buf, twoout = fcase
+        return fcase, fc.closed_model(join_inst(n1, n2, " ", "", buf, twoout), liveness=True, workers=2, timeout=600 if thorough else 240)
+    for fcase, r in pmap(flowmodel, flowcases, workers=4):
+        if r.error: chk.undecided.append("Flow.tla on join instance %s: %s" % (fcase, r.error[-200:])); continue
+        chk.add_tlc(r)
+        if not r.ok: chk.undecided.append("Flow.tla on join instance %s violates %s" % (fcase, r.violated or "deadlock"))
+        else: chk.nontrivial.add("flow-model:%s" % (fcase,))
+    r = fc.closed_model(join_inst(2, -1, " ", "", 1), liveness=False, workers=2, timeout=240, weak=["SubNoDrain"])
+    if r.error: chk.undecided.append("Flow.tla weakened (SubNoDrain): " + r.error[-200:])
+    elif r.violated != "C18_Whole": chk.undecided.append("Flow.tla with the task built before the sub-stream ended is not rejected by C18_Whole (vacuous model)")
+    else: chk.extra["weak_rejected"] = chk.extra.get("weak_rejected", []) + ["SubNoDrain"]
     cases = []
     for buf in (1, 2):
         for n in range(0, buf + 3):
@@ -98,8 +113,10 @@ def check_C18(tier):
             r, members, argv = normalize_join(rr, sep, mod)
             rows += r; info.append((members, argv))
         res = run_tlc("JoinTrace", "JoinTrace.cfg", files={"trace.ndjson": ndjson(rows)}, workers=1, timeout=120)
-        return c, inst, rrs, info, res
-    for c, inst, rrs, info, res in pmap(one, cases, workers=8):
+        good = [r for r in rrs if not (r.timeout or r.deadlock) and r.rc == 0 and r.completed]
+        det = fc.validate_traces(inst, fc.expected(inst), good)[0] if good else None
+        return c, inst, rrs, info, res, det
+    for c, inst, rrs, info, res, det in pmap(one, cases, workers=8):
         n1, n2, sep, mod, buf, twoout = c
         label = "lengths (%d,%d) sep %r modifier %r bufsize %d%s" % (n1, n2, sep, mod, buf, " (first producer: two out-ports into the sub-stream)" if twoout is True else (" (member paths: %s)" % twoout if twoout else ""))
         for rr, (members, argv) in zip(rrs, info):
@@ -123,6 +140,18 @@ def check_C18(tier):
                 chk.violation("invariant %s violated on a recorded join run: %s" % (res.violated, label), dict(instance=inst, info=info, tlc=res.out[-2000:]))
             elif res.ok:
                 chk.traces += len(rrs)
+        if det is not None:
+            if det.error: chk.undecided.append("FlowTrace %s: %s" % (label, det.error[-200:]))
+            else:
+                chk.add_tlc(det)
+                if det.violated:
+                    if fc.prop_of_invariant(det.violated) == "C18":
+                        chk.violation("invariant %s violated on the trace of a real join run (FlowTrace): %s" % (det.violated, label), dict(instance=inst, tlc=det.out[-2500:]))
+                    else: chk.notes.append("other-property %s" % det.violated)
+                elif det.rejected:
+                    print("DRIFT: FlowTrace rejected a recorded join run (%s) at line %d: %s" % (label, det.rejected[0], det.rejected[1][:200]), flush=True)
+                    chk.extra["drift"] = chk.extra.get("drift", 0) + 1
+                elif det.ok: chk.extra["flowtrace_accepted"] = chk.extra.get("flowtrace_accepted", 0) + 1
         if n1 + max(n2, 0) >= 2: chk.nontrivial.add(json.dumps(c))
         chk.sample(dict(kind="join-run", case=label, members=info[0][0] if info else None), limit=5)
     # a process with TWO joined in-ports: each placeholder gets its own sub-stream, the audit record names the members of both
